@@ -243,3 +243,137 @@ def check_step(ix, rep, mon, rule='R-STEP'):
         rep.fail(rule, v.module.rel, uv.name, '%s:memo-renewed' % slotp,
                  'the memo `self.%s` is never renewed per update(): values of the previous update would be returned forever'
                  % memo['cache'], memo['line'])
+
+
+def check_nested_steps(ix, rep, opclasses, label, rule='R-STEP'):
+    """an online operation that is built from other operations (predicate = comparison over a subtraction, since[a,b] = once, historically, since, and)
+    steps each of them once per update(): the sub-operations keep buffers and the attributes derived classes read (the interface-aware predicate reads
+    `subtraction_output`).  Every normal exit of update() is dominated by the `.update(...)` of each sub-operation, except for sub-operations whose
+    call sits under a test on configuration only (`if self.begin > 0`)."""
+    from sa import flow
+    n = 0
+    for qn, cls in sorted(opclasses.items()):
+        init = cls.methods.get('__init__')
+        upd = cls.methods.get('update')
+        if init is None or upd is None:
+            continue
+        subs = []
+        for st in ast.walk(init.node):
+            if isinstance(st, ast.Assign) and len(st.targets) == 1 and isinstance(st.targets[0], ast.Attribute) and isinstance(st.targets[0].value, ast.Name) \
+                    and st.targets[0].value.id == 'self' and isinstance(st.value, ast.Call):
+                ent = ix.resolve_expr(init.module, st.value.func)
+                if hasattr(ent, 'methods') and ix.resolve_method(ent, 'update') is not None:
+                    subs.append(st.targets[0].attr)
+        if not subs:
+            continue
+        rep.analysed(upd)
+        cfg = flow.CFG(upd.node)
+        dom = cfg.dominators()
+        parents = {}
+        for p in ast.walk(upd.node):
+            for c in ast.iter_child_nodes(p):
+                parents[id(c)] = p
+        for sname in subs:
+            calls = [c for c in ast.walk(upd.node) if isinstance(c, ast.Call) and isinstance(c.func, ast.Attribute) and c.func.attr == 'update'
+                     and ast.unparse(c.func.value) == 'self.%s' % sname]
+            if not calls:
+                continue            # stepped elsewhere (update_final) or a helper object: not this rule's business
+            n += 1
+            # configuration-conditional?
+            conf_only = True
+            for c in calls:
+                q = c
+                while id(q) in parents:
+                    par = parents[id(q)]
+                    if isinstance(par, ast.If) and q is not par.test:
+                        names = {x.attr for x in ast.walk(par.test) if isinstance(x, ast.Attribute) and isinstance(x.value, ast.Name) and x.value.id == 'self'} | \
+                                {x.id for x in ast.walk(par.test) if isinstance(x, ast.Name)}
+                        if not names <= {'begin', 'end', 'self'}:
+                            conf_only = False
+                    q = par
+            stmts = set()
+            for c in calls:
+                stc = c
+                while id(stc) in parents and cfg.node(stc) is None:
+                    stc = parents[id(stc)]
+                if cfg.node(stc) is not None:
+                    stmts.add(cfg.node(stc))
+            unconditional = all(isinstance(parents.get(id(c)), (ast.Assign, ast.Expr, ast.Return)) and parents[id(parents[id(c)])] is upd.node for c in calls) if calls else False
+            bad = None
+            if not (conf_only and not unconditional and all(_under_config_if(c, parents, upd.node) for c in calls)):
+                for p_ in cfg.pred[cfg.exit]:
+                    if p_ in cfg.reachable() and not (dom[p_] & stmts):
+                        bad = cfg.stmt[p_] if cfg.stmt[p_] is not None else upd.node
+            slot = '%s:nested:%s.%s' % (label, cls.name, sname)
+            if bad is None:
+                rep.ok(rule, upd.module.rel, '%s.update' % cls.name, slot, 'self.%s is stepped on every path (or under a test on the bounds only)' % sname, upd.node.lineno)
+            else:
+                rep.fail(rule, upd.module.rel, '%s.update' % cls.name, slot, 'update() can return (line %d) without stepping self.%s: the sub-operation misses that chunk, and whatever was '
+                         'derived from its last result (e.g. `subtraction_output`, which the interface-aware predicate re-reads in sat()) is the previous update\'s -- old samples are '
+                         'emitted again' % (getattr(bad, 'lineno', upd.node.lineno), sname), getattr(bad, 'lineno', upd.node.lineno))
+    return n
+
+
+def _under_config_if(c, parents, fnode):
+    q = c
+    while id(q) in parents:
+        par = parents[id(q)]
+        if isinstance(par, ast.If) and q is not par.test:
+            return True
+        q = par
+    return False
+
+
+def check_buffer_every_path(ix, rep, opclasses, label, rule='R-STEP'):
+    """a ring-buffer operation (`deque(maxlen=...)`) is a shift register: every update() moves it by exactly one sample.  An exit of update() that
+    is not dominated by the append (an early return for a "saturated" input, say) leaves the register one sample behind: every later window is
+    read at the wrong offset, and for a window that does not contain the newest sample (begin > 0 -- every delay element the pastifier emits) the
+    early value was wrong to begin with."""
+    from sa import flow
+    n = 0
+    for qn, cls in sorted(opclasses.items()):
+        init = cls.methods.get('__init__')
+        upd = cls.methods.get('update')
+        if init is None or upd is None:
+            continue
+        bufs = []
+        for st in ast.walk(init.node):
+            if isinstance(st, ast.Assign) and len(st.targets) == 1 and isinstance(st.targets[0], ast.Attribute) and isinstance(st.targets[0].value, ast.Name) \
+                    and st.targets[0].value.id == 'self' and isinstance(st.value, ast.Call) and ast.unparse(st.value.func).endswith('deque'):
+                bufs.append(st.targets[0].attr)
+        if not bufs:
+            continue
+        rep.analysed(upd)
+        cfg = flow.CFG(upd.node)
+        dom = cfg.dominators()
+        parents = {}
+        for p in ast.walk(upd.node):
+            for c in ast.iter_child_nodes(p):
+                parents[id(c)] = p
+        for b in bufs:
+            calls = [c for c in ast.walk(upd.node) if isinstance(c, ast.Call) and isinstance(c.func, ast.Attribute) and c.func.attr in ('append', 'appendleft')
+                     and ast.unparse(c.func.value) == 'self.%s' % b]
+            if not calls:
+                continue
+            n += 1
+            stmts = set()
+            for c in calls:
+                stc = c
+                while id(stc) in parents and cfg.node(stc) is None:
+                    stc = parents[id(stc)]
+                if cfg.node(stc) is not None:
+                    stmts.add(cfg.node(stc))
+            bad = None
+            for p_ in cfg.pred[cfg.exit]:
+                if p_ in cfg.reachable() and not (dom[p_] & stmts):
+                    bad = cfg.stmt[p_] if cfg.stmt[p_] is not None else upd.node
+            slot = '%s:shift:%s.%s' % (label, cls.name, b)
+            if bad is None and len(calls) == 1:
+                rep.ok(rule, upd.module.rel, '%s.update' % cls.name, slot, 'exactly one append on every path', upd.node.lineno)
+            elif bad is None:
+                rep.ok(rule, upd.module.rel, '%s.update' % cls.name, slot, 'an append dominates every exit', upd.node.lineno)
+            else:
+                rep.fail(rule, upd.module.rel, '%s.update' % cls.name, slot, 'update() can return (line %d) without appending the sample to self.%s: the ring buffer is a shift register, a '
+                         'skipped sample puts every later window at the wrong offset; and an early result for a window that does not contain the newest sample (begin > 0, e.g. the '
+                         'once[d,d] delays pastify() emits) is not that window\'s value' % (getattr(bad, 'lineno', upd.node.lineno), b), getattr(bad, 'lineno', upd.node.lineno))
+    return n
